@@ -13,6 +13,7 @@ LEVEL_TEXT["C18"] = (
     "a length that is not a multiple of frame_len() throws. Hence UNDER THE HYPOTHESIS that the normalised correlation exceeds the threshold at alignment only: offset = index of the preamble's last sample, "
     "preamble = the aligned samples; and nothing is reported when it never exceeds. From rest, cx is C07's FirFilter with taps flip(h)/(rms(h) nh) and pwx C07's moving average of |x|^2 "
     "(for every transform pair satisfying the circular convolution theorem; C07 discharges it for the exact DFT). "
+    "UNCONDITIONAL (Props/C18Total): with C01/C02/C07 for the library's own transform models -- finddelay_total_real/cmplx (the FFT cross-correlation IS the lag-domain sum for every pair of lengths below 2^31), circConv_lib / circXc_lib, detector_first_call_total / detector_first_call_silent_total (the detector's FFT correlation filter is the direct correlation on the first call from rest). "
     "Tie: bit-exact correspondence (gccphat tau*fs to 1e-9 sample) of the hand-written models, run with the C01 model of the library's own FFT plans, on all five entry points. "
     "Measured only (statistical hypotheses of the property, oracle on the implementation): that a white signal of >= 128 samples puts the correlation maximum at the true lag for |d| <= len/4 "
     "with noise <= -30 dB, half-sample accuracy of gccphat, score within 0.05 of 1, that Zadoff-Chu / chirp / PN preambles cross the threshold at alignment only, no false detection."
